@@ -836,6 +836,7 @@ EQ = os.path.join(HERE, "equiv")
 
 # behaviour-preserving refactors: every listed check must stay SILENT (exit 0) on them — a check that fires here is a false alarm
 EQUIV = [
+    ("eq-memory-sort-by-key", ["C18", "C10", "C06"], [os.path.join(EQ, "memory_sort_by_key.diff")], []),
     ("eq-unrelated-additions", ["C%02d" % i for i in range(1, 21)], [os.path.join(EQ, "unrelated_additions.diff")], []),
     ("eq-lookup-and-persist-helpers", ["C01", "C02", "C03", "C06", "C07", "C08", "C14", "C16"], [os.path.join(EQ, "lookup_and_persist_helpers.diff")], []),
     ("eq-admin-helper", ["C05", "C14", "C06"], [os.path.join(EQ, "admin_helper.diff")], []),
